@@ -222,7 +222,7 @@ func globalBytesInit(P *Program, g *ssa.Global) (string, bool) {
 	var val string
 	found := false
 	n := 0
-	eachInstr(init, func(in ssa.Instruction) {
+	eachInstrDeep(init, func(in ssa.Instruction) {
 		st, ok := in.(*ssa.Store)
 		if !ok || st.Addr != ssa.Value(g) {
 			return
@@ -269,7 +269,7 @@ func globalBytesInit(P *Program, g *ssa.Global) (string, bool) {
 		if fn == init {
 			continue
 		}
-		eachInstr(fn, func(in ssa.Instruction) {
+		eachInstrDeep(fn, func(in ssa.Instruction) {
 			if st, ok := in.(*ssa.Store); ok && st.Addr == ssa.Value(g) {
 				found = false
 			}
@@ -415,7 +415,7 @@ func r01_1(c *Ctx) {
 	argOfCall := func(callee string, idx int) func(fn *ssa.Function) []ssa.Value {
 		return func(fn *ssa.Function) []ssa.Value {
 			var out []ssa.Value
-			eachInstr(fn, func(in ssa.Instruction) {
+			eachInstrDeep(fn, func(in ssa.Instruction) {
 				if call, ok := isModCall(in, callee); ok {
 					out = append(out, call.Call.Args[idx])
 				}
@@ -440,7 +440,7 @@ func r01_1(c *Ctx) {
 	checkPrefix("(*Message).writeType", evV+": ", argOfCall("(*Message).writeMessageField", 3))
 	firstWrite := func(fn *ssa.Function) []ssa.Value {
 		var out []ssa.Value
-		eachInstr(fn, func(in ssa.Instruction) {
+		eachInstrDeep(fn, func(in ssa.Instruction) {
 			if ci, ok := isInvoke(in, "", "", "Write"); ok && len(out) == 0 {
 				out = append(out, ci.Common().Args[0])
 			}
@@ -530,7 +530,7 @@ func r01_2(c *Ctx) {
 	}
 	var direct []ycall
 	for _, fn := range fns {
-		eachInstr(fn, func(in ssa.Instruction) {
+		eachInstrDeep(fn, func(in ssa.Instruction) {
 			call, ok := isYieldCall(in)
 			if !ok {
 				return
@@ -579,7 +579,7 @@ func r01_2(c *Ctx) {
 		return false
 	}
 	// event yields in the iterator (direct or through the wrapper): false edge => no more yields
-	eachInstr(it, func(in ssa.Instruction) {
+	eachInstrDeep(it, func(in ssa.Instruction) {
 		call, ok := in.(*ssa.Call)
 		if !ok || !isAnyYield(in) {
 			return
@@ -659,7 +659,7 @@ func findInterp(P *Program) *interpParts {
 			x.idCell = f2
 		}
 	}
-	eachInstr(it, func(in ssa.Instruction) {
+	eachInstrDeep(it, func(in ssa.Instruction) {
 		if al, ok := in.(*ssa.Alloc); ok && deref(al.Type()).String() == "strings.Builder" {
 			x.sb = al
 		}
@@ -967,7 +967,7 @@ func r01_5(c *Ctx) {
 		return
 	}
 	m := 0
-	eachInstr(um, func(in ssa.Instruction) {
+	eachInstrDeep(um, func(in ssa.Instruction) {
 		st, ok := in.(*ssa.Store)
 		if !ok {
 			return
@@ -976,11 +976,47 @@ func r01_5(c *Ctx) {
 		if !ok {
 			return
 		}
+		guardBlock := st.Block()
 		if _, ok := isFieldSel(rootParentField(base), "Message", "ID"); !ok {
-			return
+			// a local composite (EventID{messageField{value: v, set: true}}, possibly nested) that is then
+			// copied into e.ID
+			root, isAl := rootAddr(base).(*ssa.Alloc)
+			if !isAl {
+				return
+			}
+			copied := false
+			cur := ssa.Value(root)
+			for depth := 0; depth < 4 && !copied; depth++ {
+				var next ssa.Value
+				eachInstrDeep(um, func(x ssa.Instruction) {
+					cp, ok := x.(*ssa.Store)
+					if !ok {
+						return
+					}
+					u, ok := cp.Val.(*ssa.UnOp)
+					if !ok || u.Op != token.MUL || rootAddr(u.X) != cur {
+						return
+					}
+					if _, ok := isFieldSel(cp.Addr, "Message", "ID"); ok {
+						copied = true
+						guardBlock = cp.Block()
+						return
+					}
+					if al, ok := rootAddr(cp.Addr).(*ssa.Alloc); ok && ssa.Value(al) != cur {
+						next = al
+					}
+				})
+				if next == nil {
+					break
+				}
+				cur = next
+			}
+			if !copied {
+				return
+			}
 		}
 		m++
-		c.check(isVal(st.Val) && noNULGuard(um, st.Block(), isVal), fnLabel(um)+":store(ID)", P.ipos(st), "Message.ID is set only from an id value without NUL", "Message.UnmarshalText stores an id value without the NUL check")
+		c.check(isVal(st.Val) && noNULGuard(um, guardBlock, isVal), fnLabel(um)+":store(ID)", P.ipos(st), "Message.ID is set only from an id value without NUL", "Message.UnmarshalText stores an id value without the NUL check")
 	})
 	if m == 0 {
 		c.bad(fnLabel(um)+":store(ID)", P.pos(um.Pos()), "UnmarshalText never sets the ID")
@@ -1030,7 +1066,7 @@ func r01_7(c *Ctx) {
 			"the pending event is flushed only when dirty and the parser reports io.EOF (clean end)", "the pending event is flushed without (dirty && err == io.EOF): a cut-off event is dispatched, or an empty one")
 	}
 	n := 0
-	eachInstr(it, func(in ssa.Instruction) {
+	eachInstrDeep(it, func(in ssa.Instruction) {
 		call, ok := isYieldCall(in)
 		if !ok || len(call.Call.Args) != 2 || isNilConst(call.Call.Args[1]) {
 			return
@@ -1131,7 +1167,7 @@ func r01_8(c *Ctx) {
 	}
 	// colon position: strings.IndexByte(chunk, ':')
 	var colon *ssa.Call
-	eachInstr(ss, func(in ssa.Instruction) {
+	eachInstrDeep(ss, func(in ssa.Instruction) {
 		if call, ok := isStaticCall(in, "strings.IndexByte"); ok && call.Call.Args[0] == ssa.Value(chunk) {
 			if k, ok := constInt(call.Call.Args[1]); ok && k == ':' {
 				colon = call
@@ -1144,7 +1180,7 @@ func r01_8(c *Ctx) {
 	}
 	// colonPos phi: colon, or len(chunk) when -1
 	var colonPos ssa.Value
-	eachInstr(ss, func(in ssa.Instruction) {
+	eachInstrDeep(ss, func(in ssa.Instruction) {
 		if phi, ok := in.(*ssa.Phi); ok {
 			hasColon, hasLen := false, false
 			for _, e := range phi.Edges {
@@ -1166,7 +1202,7 @@ func r01_8(c *Ctx) {
 	}
 	// name lookup: getFieldName(chunk[:colonPos])
 	var gfn *ssa.Call
-	eachInstr(ss, func(in ssa.Instruction) {
+	eachInstrDeep(ss, func(in ssa.Instruction) {
 		if call, ok := isModCall(in, "parser.getFieldName"); ok {
 			if sl, ok := call.Call.Args[0].(*ssa.Slice); ok && sl.X == ssa.Value(chunk) && sl.Low == nil && sl.High == colonPos {
 				gfn = call
@@ -1306,7 +1342,7 @@ func r01_9(c *Ctx, part string) {
 		recv, out := fn.Params[0], fn.Params[1]
 		name := fnLabel(fn)
 		var nc, ss *ssa.Call
-		eachInstr(fn, func(in ssa.Instruction) {
+		eachInstrDeep(fn, func(in ssa.Instruction) {
 			if call, ok := isModCall(in, "parser.NextChunk"); ok {
 				if b, ok := isFieldLoad(call.Call.Args[0], "parser.FieldParser", "data"); ok && b == ssa.Value(recv) {
 					nc = call
@@ -1329,7 +1365,7 @@ func r01_9(c *Ctx, part string) {
 				name+":line-to-scanSegment", P.ipos(ss), "the line NextChunk returned is scanned into the caller's Field, only when it was terminated", "scanSegment does not receive the terminated line returned by NextChunk (and the caller's Field)")
 			// consumption
 			nData := 0
-			eachInstr(fn, func(in ssa.Instruction) {
+			eachInstrDeep(fn, func(in ssa.Instruction) {
 				st, ok := in.(*ssa.Store)
 				if !ok {
 					return
@@ -1411,7 +1447,7 @@ func r01_9(c *Ctx, part string) {
 		if f.Pkg == nil || f.Pkg.Pkg.Path() != parserPath {
 			continue
 		}
-		eachInstr(f, func(in ssa.Instruction) {
+		eachInstrDeep(f, func(in ssa.Instruction) {
 			call, ok := isStaticCall(in, "strings.HasPrefix", "strings.TrimPrefix", "strings.CutPrefix")
 			if !ok {
 				return
@@ -1434,7 +1470,7 @@ func r01_9(c *Ctx, part string) {
 			}
 			// the strip: store to f.data of data[len(bom):] guarded by removeBOM, !started, HasPrefix
 			var strip *ssa.Store
-			eachInstr(f, func(x ssa.Instruction) {
+			eachInstrDeep(f, func(x ssa.Instruction) {
 				st, ok := x.(*ssa.Store)
 				if !ok {
 					return
@@ -1470,7 +1506,7 @@ func r01_9(c *Ctx, part string) {
 			c.check(lenOK && g, name, P.ipos(strip), "exactly the three BOM bytes are removed, only when enabled, not yet started and the data starts with the BOM", "the BOM strip is not (data[3:] under removeBOM && !started && HasPrefix(data, BOM)): a BOM inside the stream is stripped or a leading one is kept")
 			// started is set with the strip
 			setStarted := false
-			eachInstr(f, func(x ssa.Instruction) {
+			eachInstrDeep(f, func(x ssa.Instruction) {
 				if st, ok := x.(*ssa.Store); ok {
 					if b, ok := isFieldSel(st.Addr, "parser.FieldParser", "started"); ok && b == ssa.Value(recv) {
 						if bv, isC := constBool(st.Val); isC && bv && st.Block() == strip.Block() {
@@ -1488,7 +1524,7 @@ func r01_9(c *Ctx, part string) {
 	// stream parser: RemoveBOM(true) at construction, RemoveBOM(false) once started, before Reset
 	if nw := P.Fn("parser.New"); nw != nil {
 		on := false
-		eachInstr(nw, func(in ssa.Instruction) {
+		eachInstrDeep(nw, func(in ssa.Instruction) {
 			if call, ok := isModCall(in, "(*parser.FieldParser).RemoveBOM"); ok {
 				if b, isC := constBool(call.Call.Args[1]); isC && b {
 					on = true
@@ -1507,7 +1543,7 @@ func r01_9(c *Ctx, part string) {
 	}
 	if nx := P.Fn("(*parser.Parser).Next"); nx != nil {
 		var off, reset *ssa.Call
-		eachInstr(nx, func(in ssa.Instruction) {
+		eachInstrDeep(nx, func(in ssa.Instruction) {
 			if call, ok := isModCall(in, "(*parser.FieldParser).RemoveBOM"); ok {
 				if b, isC := constBool(call.Call.Args[1]); isC && !b {
 					off = call
@@ -1528,7 +1564,7 @@ func r01_9(c *Ctx, part string) {
 				}
 			}
 			var started ssa.Instruction
-			eachInstr(nx, func(in ssa.Instruction) {
+			eachInstrDeep(nx, func(in ssa.Instruction) {
 				if call, ok := isModCall(in, "(*parser.FieldParser).Started"); ok {
 					started = call
 				}
@@ -1692,7 +1728,7 @@ func r01_12(c *Ctx) {
 	data := fn.Params[0]
 	name := fnLabel(fn)
 	var ni *ssa.Call
-	eachInstr(fn, func(in ssa.Instruction) {
+	eachInstrDeep(fn, func(in ssa.Instruction) {
 		if call, ok := isModCall(in, "parser.NewlineIndex"); ok && len(loopsContaining(fn, call.Block())) > 0 {
 			ni = call
 		}
@@ -1957,7 +1993,7 @@ func tableElement(P *Program, v ssa.Value) (table []string, elem ssa.Value, ok b
 	}
 	vals := map[int64]string{}
 	good := true
-	eachInstr(init, func(in ssa.Instruction) {
+	eachInstrDeep(init, func(in ssa.Instruction) {
 		st, isSt := in.(*ssa.Store)
 		if !isSt {
 			return
@@ -2004,7 +2040,7 @@ func tableElement(P *Program, v ssa.Value) (table []string, elem ssa.Value, ok b
 		if fn == init {
 			continue
 		}
-		eachInstr(fn, func(in ssa.Instruction) {
+		eachInstrDeep(fn, func(in ssa.Instruction) {
 			if st, ok := in.(*ssa.Store); ok {
 				if st.Addr == ssa.Value(g) {
 					good = false
